@@ -176,6 +176,11 @@ theorem C08_defect_bookmark_get : ¬ FullC08 :=
   refute [.bookmark] ⟨.get, .other, .fresh, [⟨.query, .priv, true⟩], false⟩ (by decide)
 theorem C08_defect_bookmark_set : ¬ FullC08 :=
   refute [.bookmark] ⟨.set, .other, .fresh, [⟨.query, .priv, true⟩], false⟩ (by decide)
+/-- bookmark manager: any get/set whose id equals the id of the outstanding `setBookmarks` request is swallowed -/
+theorem C08_defect_bookmark_get_pending_id : ¬ FullC08 :=
+  refute [.bookmark] ⟨.get, .other, .bm, [⟨.other, .other, false⟩], false⟩ (by decide)
+theorem C08_defect_bookmark_set_pending_id : ¬ FullC08 :=
+  refute [.bookmark] ⟨.set, .other, .bm, [⟨.other, .other, false⟩], false⟩ (by decide)
 /-- MAM manager: `<fin xmlns='urn:xmpp:mam:2'/>` of type get/set: no reply -/
 theorem C08_defect_mam_get_fin : ¬ FullC08 :=
   refute [.mam] ⟨.get, .other, .fresh, [⟨.fin, .mam, false⟩], false⟩ (by decide)
@@ -224,6 +229,18 @@ theorem C08_defect_uploadRequest_get_slot : ¬ FullC08 :=
   refute [.uploadRequest] ⟨.get, .other, .fresh, [⟨.slot, .upload, false⟩], false⟩ (by decide)
 theorem C08_defect_uploadRequest_set_slot : ¬ FullC08 :=
   refute [.uploadRequest] ⟨.set, .other, .fresh, [⟨.slot, .upload, false⟩], false⟩ (by decide)
+
+/-! ## 3b. How the statement changes once /verif/fixes/C08-*.diff are applied -/
+
+/-- With the four fix diffs applied (`rowOfFixed`: the nine defective handlers guarded as in the diffs, the
+others unchanged; the driver argument `fixed` ties this model to a patched library the same way), the
+FULL statement holds: every set of bundled managers, every order, every stanza. -/
+theorem C08_holds_after_fixes (ms : List Mgr) (s : Stanza) :
+    answeredRight s (dispatch (ms.map rowOfFixed) s).sent = true := by
+  apply dispatch_good
+  intro r hr
+  rcases List.mem_map.mp hr with ⟨m, _, rfl⟩
+  exact fixed_good m s
 
 /-! ## 4. The model's tables are the source's (regenerated by translators/iq_handlers.py on every run) -/
 
